@@ -179,7 +179,23 @@ pub fn run(ctx: &Ctx) -> i32 {
                 1 | 2 => (Profile::conforming(), Some(inj)),
                 _ => (Profile::wild(), None),
             };
-            let g = gen::generate(&mut rng, &prof, inject);
+            let mut g = gen::generate(&mut rng, &prof, inject);
+            if rng.chance(0.15) {
+                // two or three different labels that nothing defines: the error names one place, and
+                // that place must not depend on how the program is spread over files
+                let mut n = 0;
+                for l in g.prog.lines.iter_mut() {
+                    if let crate::ast::Line::Ins(crate::ast::Ins::Branch { label, .. }) = l {
+                        if n < 3 && rng.chance(0.3) {
+                            *label = format!("undefined_{n}");
+                            n += 1;
+                        }
+                    }
+                }
+                if n > 0 {
+                    acc.count("programs_with_undefined_labels", 1);
+                }
+            }
             let mut text = print(&g.prog, &Style::plain(), &mut Rng::new(1)).text;
             if rng.chance(0.2) {
                 // a malformed line somewhere
